@@ -430,7 +430,8 @@ where
 			None => 0,
 		};
 		let keychain = wallet.keychain(keychain_mask)?;
-		let parent_key_id = wallet.parent_key_id();
+		// the account the transaction was sent from, not whichever is active now
+		let parent_key_id = context.parent_key_id.clone();
 		let excess = slate.calc_excess(keychain.secp())?;
 		let sender_key =
 			address::address_from_derivation_path(&keychain, &parent_key_id, derivation_index)?;
